@@ -71,11 +71,40 @@ def ptrAgree (h : Heap) (ph : PHeap) (ret retP : Option Nat) : String :=
   if ph.brk = h.brk ∧ walkFl ph (ph.brk + 1) = h.flp ∧ h.live.all (fun c => ph.szf c.1 == c.2) ∧ ret = retP
   then "" else " MISMATCH-PTR"
 
+/-- the address the driver assumes for `__malloc_heap_start`.  The harness checks that the real arena
+lies in `[2³², 2⁴⁷)` and generates only requests whose verdict is the same for every base in that range. -/
+def BASE : Nat := 2 ^ 46
+
+/-- the history the harness runs from a constructor with `init_priority(101)` (before `main`, before the
+dynamic initialisers of the library): malloc(10), realloc(p, 100), malloc(0), free, free, free -/
+def earlyLine : String :=
+  let cfg : Cfg := ⟨64, 0⟩
+  let r1 := mallocA BASE cfg Heap.init 10
+  match reallocA BASE cfg r1.h r1.ret 100 with
+  | none => "fault"
+  | some r2 =>
+    let r3 := mallocA BASE cfg r2.h 0
+    let brk3 := r3.h.brk
+    match r3.ret, r2.ret, r1.ret with
+    | some c, some b, some a =>
+      match free r3.h b with
+      | none => "fault"
+      | some r4 =>
+        match free r4.h c with
+        | none => "fault"
+        | some r5 => s!"early a={a} b={b} c={c} brk={brk3} end={r5.h.brk} fl={r5.h.flp.length}"
+    | _, _, _ => "fault"
+
 def stepLine (st : St) (line : String) : St × String :=
   let bad := (st, "bad-op")
   let st' := st
   match words line with
   | ["consts"] => (st, "W=64 szt=8 fl=16 sl=8")
+  -- widths and alignments the model embeds: `int _count` (room(): n < 2³¹), pointers / `size_t` 64 bits (SIZE_MAX),
+  -- header = sizeof(size_t), minimum chunk = sizeof(struct __freelist) - sizeof(size_t), payload alignment 8,
+  -- alignof(max_align_t) of the host (16: NOT provided, finding C10-heap-align-max-align-t)
+  | ["consts2"] => (st, s!"int=4 ptr=8 sizemax={SIZE_MAX} hdr=8 minchunk={minLen 0} align=8 maxalign=16 nx_off=8")
+  | ["early"] => (st, earlyLine)
   | ["reset", "pool", e, n] =>
     match e.toNat?, n.toNat? with
     | some e, some n =>
@@ -221,9 +250,10 @@ def stepLine (st : St) (line : String) : St × String :=
     | .heap cfg h ph slots, ["m", k, n] =>
       match k.toNat?, n.toNat? with
       | some k, some n =>
-        let r := malloc64 cfg h n
-        -- a request whose rounding wraps is refused before any pointer is touched
-        let rp := if n % cfg.W ≠ 0 ∧ n > SIZE_MAX - (cfg.W - n % cfg.W) then (⟨ph, none⟩ : PRes)
+        let r := mallocA BASE cfg h n
+        -- a request whose rounding wraps, or that would move the break across the top of the address
+        -- space, is refused before any pointer is touched
+        let rp := if (n % cfg.W ≠ 0 ∧ n > SIZE_MAX - (cfg.W - n % cfg.W)) ∨ mallocRefusesA BASE cfg h n then (⟨ph, none⟩ : PRes)
           else mallocP cfg ph n (ph.brk + 1)
         let slots' := slotSet slots k r.ret
         (.heap cfg r.h rp.h slots', heapLine (optS r.ret) r.h slots' ++ ptrAgree r.h rp.h r.ret rp.ret)
@@ -244,10 +274,14 @@ def stepLine (st : St) (line : String) : St × String :=
     | .heap cfg h ph slots, ["r", k, n] =>
       match k.toNat?, n.toNat? with
       | some k, some n =>
-        match realloc64 cfg h (slotGet slots k) n with
+        match reallocA BASE cfg h (slotGet slots k) n with
         | none => (st, "fault")
         | some r =>
-          let rp := if n % cfg.W ≠ 0 ∧ n > SIZE_MAX - (cfg.W - n % cfg.W) then (⟨ph, none⟩ : PRes)
+          let len := minLen (roundLen cfg.W n)
+          let refused : Bool := match slotGet slots k with
+            | none => mallocRefusesA BASE cfg h len
+            | some p => reallocWrapTest BASE p len || (reachesMove cfg h p len && mallocRefusesA BASE cfg h len)
+          let rp := if (n % cfg.W ≠ 0 ∧ n > SIZE_MAX - (cfg.W - n % cfg.W)) ∨ refused then (⟨ph, none⟩ : PRes)
             else reallocP cfg ph (slotGet slots k) n (ph.brk + 1)
           -- a NULL result leaves the old block alive
           let slots' := match r.ret with
